@@ -62,7 +62,7 @@ def _has_quant(t):
 class Engine(MatrixTheory, NumpyTheory, Evaluator):
     BUILTINS = {'len', 'min', 'max', 'abs', 'int', 'range', 'list', 'tuple', 'isinstance', 'slice', 'all', 'any',
                 'implies', 'old', 'enumerate', 'zip', 'ceil', 'floor', 'float', 'bool', 'str', 'dict', 'getattr',
-                'round', 'iff', 'sorted', 'ite', 'map', 'super', 'fresh_obj', 'same_fields_except', 'is_fresh', 'psum', 'ops_fold', 'op_row', 'nblocks', 'flat', 'elems', 'is_list', 'is_none', 'smul', 'smul_def', 'sq', 'rpsum', 'same_rows', 'same_lengths', 'width', 'same_widths', 'depth', 'origin', 'empty'}
+                'round', 'iff', 'sorted', 'ite', 'map', 'super', 'fresh_obj', 'same_fields_except', 'is_fresh', 'psum', 'ops_fold', 'op_row', 'nblocks', 'flat', 'elems', 'is_list', 'is_none', 'smul', 'smul_def', 'sq', 'rpsum', 'same_rows', 'same_lengths', 'width', 'same_widths', 'depth', 'origin', 'empty', 'dkeys', 'dvals'}
 
     def __init__(self, spec_module_path=None):
         self.obs = []
@@ -119,7 +119,15 @@ class Engine(MatrixTheory, NumpyTheory, Evaluator):
         if d is not None:
             hyps.append(d)
         ob = Ob(name, kind, label, hyps, goal, line, self.cur.key)
+        want = getattr(self.cur, 'using', {}).get(label)
+        if want:
+            # `using`: positions of the named facts (plus every quantifier-free fact) among the hypotheses: the prover tries this subset first
+            ob.using = [i_ for i_, h_ in enumerate(hyps) if getattr(h_, '_label', None) in want or not has_quant(h_)]
         self.obs.append(ob)
+        try:
+            goal._label = label
+        except Exception:
+            pass
         st.assume(goal)
 
     def raise_allowed(self, exc):
@@ -245,6 +253,13 @@ class Engine(MatrixTheory, NumpyTheory, Evaluator):
                 return self.quantify(node.args[0], st, fn == 'all')
             if fn == 'old':
                 return self.eval_old(node.args[0], st)
+            if fn == 'ite' and len(node.args) == 3 and st.spec:
+                # ite(c, x, y) with a condition settled on this path: only the chosen branch is evaluated (the other may be ill-typed, e.g. None[...])
+                c_ = z3.simplify(self.truth(self.ev(node.args[0], st), st))
+                if z3.is_true(c_):
+                    return self.ev(node.args[1], st)
+                if z3.is_false(c_):
+                    return self.ev(node.args[2], st)
             if fn == 'implies':
                 a = self.truth(self.ev(node.args[0], st), st)
                 if st.entails(z3.Not(a)):
@@ -450,6 +465,8 @@ class Engine(MatrixTheory, NumpyTheory, Evaluator):
             return isinstance(v, VTuple) and len(v.items) == len(t[1]) and all(self.value_matches(x, y, st) for x, y in zip(v.items, t[1]))
         if k == 'slice':
             return isinstance(v, VSlice) and all(self.value_matches(x, y, st) for x, y in zip((v.start, v.stop, v.step), t[1:]))
+        if k == 'assoc':
+            return isinstance(v, VAssoc)
         if k in ('mat', 'flatmat', 'cube'):
             return isinstance(v, VMat) and v.flat == (k == 'flatmat') and st.heap.rags[v.ref].etype == t[1] and (v.depth is not None) == (k == 'cube')
         if k == 'rag':
@@ -663,6 +680,10 @@ class Engine(MatrixTheory, NumpyTheory, Evaluator):
             # rpsum(list_of_arrays, p): number of elements in the first p arrays
             rc = st.heap.rags[args[0].ref]
             return VInt(self.rag_psum(rc, st)(as_int(args[1])))
+        if name == 'dkeys':
+            return args[0].keys
+        if name == 'dvals':
+            return args[0].vals
         if name == 'empty':
             # empty('int') / empty('elem'): a typed empty list (initial value of ghost traces)
             et_ = parse_type(args[0].s)
@@ -1098,7 +1119,35 @@ class Engine(MatrixTheory, NumpyTheory, Evaluator):
             self._cuts_hit = getattr(self, '_cuts_hit', set()) | {(self.cur.key, lab)}
             for s in states:
                 if s.status == 'run':
-                    if lab.startswith('let:'):
+                    if lab.startswith('lemma:L3'):
+                        # Lean-checked lemma L3 (lean/L3_step_exists.lean) instantiated for one integer array: between two positions holding
+                        # different values there are two consecutive positions holding different values
+                        lv_ = self.spec_eval(e, s)
+                        cl_ = s.heap.lists[lv_.ref]
+                        a_, b_, q_ = z3.Int(fresh_name('a')), z3.Int(fresh_name('b')), z3.Int(fresh_name('q'))
+                        S_ = cl_.leaves[0]
+                        ax_ = z3.ForAll([a_, b_], z3.Implies(z3.And(a_ >= 0, a_ < b_, b_ < cl_.length, S_[a_] != S_[b_]),
+                                                             z3.Exists([q_], z3.And(a_ < q_, q_ <= b_, S_[q_ - 1] != S_[q_]))))
+                        ax_._label = 'lemma:L3'
+                        s.assume(ax_)
+                        self.assumed_used.add('<lean>::L3 step-exists (machine-checked by setup)')
+                    elif lab.startswith('lemma:L4'):
+                        # Lean-checked lemma L4 (lean/L4_floor_index.lean) for one integer list: every p at or above the first element has a
+                        # floor position k (idx[k] <= p, and p < idx[k+1] when k+1 exists)
+                        lv_ = self.spec_eval(e, s)
+                        over_ = None
+                        if isinstance(lv_, VTuple):          # (idx, A): only for the positions p of the array A (gives p a trigger)
+                            lv_, over_ = lv_.items
+                        cl_ = s.heap.lists[lv_.ref]
+                        p_, k_ = z3.Int(fresh_name('p')), z3.Int(fresh_name('k'))
+                        X_ = cl_.leaves[0]
+                        rng_ = z3.And(p_ >= 0, p_ < s.heap.lists[over_.ref].length) if over_ is not None else z3.BoolVal(True)
+                        ax_ = z3.ForAll([p_], z3.Implies(z3.And(rng_, cl_.length >= 1, X_[0] <= p_),
+                                                        z3.Exists([k_], z3.And(k_ >= 0, k_ < cl_.length, X_[k_] <= p_, z3.Implies(k_ + 1 < cl_.length, p_ < X_[k_ + 1])))))
+                        ax_._label = 'lemma:L4'
+                        s.assume(ax_)
+                        self.assumed_used.add('<lean>::L4 floor-index (machine-checked by setup)')
+                    elif lab.startswith('let:'):
                         v_ = self.spec_eval(e, s)      # ghost name for a value that the code is about to overwrite
                         if isinstance(v_, VRag):       # frozen copy (cells are replaced, never mutated, so sharing the cell is a snapshot)
                             r_ = s.heap.new_ref()
@@ -1264,6 +1313,17 @@ class Engine(MatrixTheory, NumpyTheory, Evaluator):
     def setitem_hook(self, base, tgt, val, st):
         if isinstance(base, VMat):
             return self.mat_setitem(base, tgt, val, st)
+        if isinstance(base, VAssoc) and not isinstance(tgt.slice, ast.Slice) and isinstance(val, VList):
+            # d[key] = array with a key that is not in the dict yet (obligation): appended at the end
+            key = as_int(self.ev(tgt.slice, st))
+            kc = st.heap.lists[base.keys.ref]
+            q = z3.Int(fresh_name('q'))
+            self.oblige(st, 'model', 'dict-assignment-key-is-new', z3.ForAll([q], z3.Implies(z3.And(q >= 0, q < kc.length), kc.leaves[0][q] != key)), tgt)
+            self.list_append(base.keys, VInt(key), st)
+            self.rag_append(base.vals, self.as_array(val, st), st)
+            return True
+        if isinstance(base, VList) and base.nd and isinstance(tgt.slice, ast.Slice) and tgt.slice.step is None:
+            return self.nd_slice_assign(base, tgt, val, st)
         # rows[:, mask] = 0 on a block of opaque rows: every row gets the masked columns zeroed (row-wise op 'zero_cols')
         if isinstance(base, VList) and base.nd and isinstance(tgt.slice, ast.Tuple) and len(tgt.slice.elts) == 2 \
                 and isinstance(tgt.slice.elts[0], ast.Slice) and all(x is None for x in (tgt.slice.elts[0].lower, tgt.slice.elts[0].upper, tgt.slice.elts[0].step)):
@@ -1812,7 +1872,12 @@ class Engine(MatrixTheory, NumpyTheory, Evaluator):
                     st.env[n] = self.spec_eval(e, st)
                     entry_env[n] = st.env[n]
                 for lab, e in c.requires:
-                    st.assume(self.spec_truth(e, st))
+                    rq_ = self.spec_truth(e, st)
+                    try:
+                        rq_._label = lab
+                    except Exception:
+                        pass
+                    st.assume(rq_)
                 # vacuity guard: requires must be satisfiable (checked by the driver with full solver)
                 self.obs.append(_cover('%s.cover.requires' % self.cur_tag, list(st.pc), c.key))
                 for g, e in c.ghost.items():
